@@ -12,7 +12,7 @@ import (
 func init() {
 	register("C07", &propSpec{
 		level:       "other",
-		explanation: "Server robustness decided structurally for both receive loops and the handling cones: a packet whose decoding failed (other than an unknown extension name) is never handed to the dispatcher and a nil packet never is; on that path the connection is closed and Serve reports the error; on every exit the shutdown sequence close(pktChan) → workers joined → handle sweep runs, the dispatcher closes both worker channels, and a worker's response is queued before the barrier counter is released (so the join cannot wedge); no panic-capable instruction on request-derived data in the handling cones is left undischarged by the bounds prover (type assertions on attribute blobs, allocator page slicing), and decoded attributes are dereferenced only when decoding succeeded. 'Emitted responses are a prefix of the correct ones' and goroutine leaks in general are not decided.",
+		explanation: "Server robustness decided structurally for both receive loops and the handling cones: a packet whose decoding failed (other than an unknown extension name) is never handed to the dispatcher and a nil packet never is; on that path the connection is closed and Serve reports the error; on every exit the shutdown sequence close(pktChan) → workers joined → handle sweep runs, the dispatcher closes both worker channels, and a worker's response is queued before the barrier counter is released (so the join cannot wedge); no panic-capable instruction on request-derived data in the handling cones is left undischarged by the bounds prover (type assertions on attribute blobs, allocator page slicing), the decoders of requests that carry an ATTRS block (OPEN, MKDIR, SETSTAT, FSETSTAT) refuse a block shorter than its flags announce, and no WaitGroup.Wait runs while holding a mutex the awaited goroutines can acquire. 'Emitted responses are a prefix of the correct ones' and goroutine leaks in general are not decided.",
 		run:         runC07,
 		assumptions: []string{"user handlers do not panic", "maxTxPacket is below 2^31 (WithMaxTxPacket has no upper bound; larger values are outside what the prover assumes)"},
 		extra:       []BuildConfig{cfgDebug},
